@@ -52,11 +52,13 @@ func runReport(inst reflect.Value, b Bars, limit time.Duration) (dates []int64, 
 	m := inst.MethodByName("Report")
 	res := m.Call([]reflect.Value{reflect.ValueOf(helper.SliceToChan(snapshotsOf(b)))})
 	rep := res[0].Interface().(*helper.Report)
-	cols = make([]obsCol, len(rep.Columns))
+	// the readers keep running after a time-out: they write to locals, never to the named results
+	acc := make([]obsCol, len(rep.Columns))
+	var accDates []int64
 	done := make(chan int, len(rep.Columns)+1)
 	go func() {
 		for d := range rep.Date {
-			dates = append(dates, d.Unix()/86400)
+			accDates = append(accDates, d.Unix()/86400)
 		}
 		done <- -1
 	}()
@@ -65,7 +67,7 @@ func runReport(inst reflect.Value, b Bars, limit time.Duration) (dates []int64, 
 		if !ch.IsValid() {
 			return nil, nil, false, fmt.Errorf("column %d has no values channel", i)
 		}
-		cols[i].label, cols[i].isAnn = label, isAnn
+		acc[i].label, acc[i].isAnn = label, isAnn
 		go func(i int, ch reflect.Value, isAnn bool) {
 			for {
 				v, ok := ch.Recv()
@@ -73,9 +75,9 @@ func runReport(inst reflect.Value, b Bars, limit time.Duration) (dates []int64, 
 					break
 				}
 				if isAnn {
-					cols[i].ann = append(cols[i].ann, v.String())
+					acc[i].ann = append(acc[i].ann, v.String())
 				} else {
-					cols[i].num = append(cols[i].num, v.Float())
+					acc[i].num = append(acc[i].num, v.Float())
 				}
 			}
 			done <- i
@@ -90,7 +92,7 @@ func runReport(inst reflect.Value, b Bars, limit time.Duration) (dates []int64, 
 			return nil, nil, true, nil
 		}
 	}
-	return dates, cols, false, nil
+	return accDates, acc, false, nil
 }
 
 func coqStr(s string) string { return fmt.Sprintf("%q%%string", s) }
